@@ -101,6 +101,41 @@ def merge_leaf_sources(rec, mid, seen=None):
     return res
 
 
+def latch_depths(rec):
+    """per memory cell (index = position of its IRMemCreate): combinator depth of the set and of the reset value of its
+    latch write, counted in the final IR from the inputs (constants and memory reads are depth 0)"""
+    ir = {op["id"]: op for op in rec.get("ir_final", [])}
+    memo = {}
+
+    def depth(src, guard=0):
+        if src in memo:
+            return memo[src]
+        op = ir.get(src)
+        if op is None or guard > 64 or op.get("kind") not in ("IRArith", "IRDecider"):
+            memo[src] = 0
+            return 0
+        ds = [0]
+        for k in ("left", "right", "output_value"):
+            o = op.get(k)
+            if isinstance(o, dict) and "src" in o:
+                ds.append(depth(o["src"], guard + 1))
+        for c in op.get("conditions") or []:
+            for k in ("first_operand", "second_operand"):
+                o = c.get(k)
+                if isinstance(o, dict) and "src" in o:
+                    ds.append(depth(o["src"], guard + 1))
+        memo[src] = 1 + max(ds)
+        return memo[src]
+    mems = [op.get("memory_id") for op in rec.get("ir_final", []) if op.get("kind") == "IRMemCreate"]
+    out = {}
+    for op in rec.get("ir_final", []):
+        if op.get("kind") == "IRLatchWrite" and op.get("memory_id") in mems:
+            sd = depth(op["set_signal"]["src"]) if isinstance(op.get("set_signal"), dict) and "src" in op["set_signal"] else 0
+            rd = depth(op["reset_signal"]["src"]) if isinstance(op.get("reset_signal"), dict) and "src" in op["reset_signal"] else 0
+            out[mems.index(op["memory_id"])] = (sd, rd)
+    return out
+
+
 def classify_history(rec, verdict, hm):
     """History (stateful) mismatches: F22 = reset-priority latch that is on, set and reset both active."""
     for c in hm.get("cells", []):
@@ -115,8 +150,13 @@ def classify_history(rec, verdict, hm):
                 and c.get("prev_enable_or_set", 0) != 0 and c.get("prev_reset", 0) != 0 and c["prev"] == 0:
             exp = hm.get("expected", {})
             got = hm.get("got", {})
+            # only a set value that is computed by a longer chain of combinators than the reset value arrives later
+            # (the remapper skew of equal-depth values is repaired: f2295aa)
+            sd, rd = latch_depths(rec).get(c.get("cell"), (0, 0))
+            if sd <= rd:
+                continue
             if got and (not exp or all(v == 0 for v in exp.values())):
-                return ("F32", "reset-priority latch turns on when set and reset, both active, become inactive in the same step (set path one tick longer than reset path)")
+                return ("F32", "reset-priority latch turns on when set and reset, both active, become inactive in the same step and the set value is computed by a longer chain of combinators than the reset value")
     return None
 
 
